@@ -59,7 +59,7 @@ func init() {
 			"documents that fail Load or Validate are discarded (counted); only documents passing Validate are in scope",
 			"hang = one message consuming more than 30 CPU-seconds; memory blow-up = 8 GiB address-space limit hit (both reported with the message)",
 		},
-		Shards:         func(string) int { return 17 }, // 16 workload shards + 1 probe shard (known-finding inputs that may kill the process)
+		Shards:         func(string) int { return 18 }, // 16 workload shards + 2 probe shards (inputs that may kill the process, one process per fatal one)
 		Run:            runC10,
 		Replay:         replayC10,
 		CaseCPUSeconds: 30,
@@ -448,8 +448,13 @@ func (m *c10Msg) request() *http.Request {
 
 func runC10(c *core.Ctx) {
 	registerHarnessFormats()
-	if c.Shard == c.NShards-1 {
-		c10Probes(c)
+	const workShards = 16
+	if c.Shard >= workShards {
+		if c.Shard == workShards {
+			c10Probes(c)
+		} else {
+			c10ProbeRecursiveDefault(c)
+		}
 		return
 	}
 	nDocs := c.Pick(320, 8000)
@@ -457,7 +462,7 @@ func runC10(c *core.Ctx) {
 	idx := 0
 	// generated documents
 	for i := 0; i < nDocs; i++ {
-		if idx%(c.NShards-1) == c.Shard {
+		if idx%workShards == c.Shard {
 			r := c.Rng(fmt.Sprintf("doc/%d", i))
 			g := &gen.DocGen{R: r, Unusual: i%2 == 1}
 			doc := g.Doc()
@@ -468,7 +473,7 @@ func runC10(c *core.Ctx) {
 	}
 	// the repository's own documents
 	for _, f := range repoTestdataDocs() {
-		if idx%(c.NShards-1) == c.Shard {
+		if idx%workShards == c.Shard {
 			r := c.Rng("file/" + f)
 			c10Document(c, f, nil, f, nMsgs, r, &gen.DocGen{R: r})
 		}
@@ -745,6 +750,39 @@ var _ = bytes.NewReader
 
 // c10Probes runs, in a shard of their own, the specific inputs recorded as open findings; each is
 // announced in the write-ahead log as "probe:<name> ..." so that a process-fatal ending is attributed.
+// c10ProbeRecursiveDefault: a recursive component schema that carries a default for itself: every level of the default
+// asks for one more level (Node: {default: {}, properties: {child: $ref Node}}).
+func c10ProbeRecursiveDefault(c *core.Ctx) {
+	c.ForceWAL()
+	doc := baseDoc(gen.S{"/r": gen.S{"post": gen.S{"responses": okResponses(), "requestBody": gen.S{"content": gen.S{"application/json": gen.S{"schema": gen.S{"$ref": "#/components/schemas/Node"}}}}}}})
+	doc["components"] = gen.S{"schemas": gen.S{"Node": gen.S{"type": "object", "default": gen.S{}, "properties": gen.S{"name": gen.S{"type": "string"}, "child": gen.S{"$ref": "#/components/schemas/Node"}}}}}
+	d, err := loadDoc(doc)
+	if err != nil {
+		c.Note("probe recursive-default: document did not load/validate: %v", err)
+		c.Cover("probes", "recursive-default-doc-rejected")
+		return
+	}
+	router, err := gorillamux.NewRouter(d)
+	if err != nil {
+		return
+	}
+	for _, skip := range []bool{true, false} {
+		c.Begin(fmt.Sprintf("probe:recursive-schema-default POST /r {\"name\":\"a\"} against Node: {default: {}, properties: {child: $ref Node}} SkipSettingDefaults=%v", skip))
+		c.Distinct(fmt.Sprintf("probe:recursive-schema-default/%v", skip))
+		hdr := http.Header{"Content-Type": []string{"application/json"}}
+		req := newReq("POST", "http://h.t/r", hdr, []byte(`{"name":"a"}`))
+		in, err := reqInput(router, req, &openapi3filter.Options{SkipSettingDefaults: skip})
+		if err != nil {
+			continue
+		}
+		c.Eval()
+		debug.SetMaxStack(64 << 20)
+		if pi := core.Guard(func() { openapi3filter.ValidateRequest(bgCtx, in) }); pi != nil {
+			c.Violate(core.PanicFeatures(pi), map[string]any{"probe": "recursive-schema-default"}, pi.Stack)
+		}
+	}
+}
+
 func c10Probes(c *core.Ctx) {
 	c.ForceWAL()
 	// (1) a tiny deepObject query with a huge array index allocates an array of that size
